@@ -233,7 +233,7 @@ var srcTypeW = []string{"Outer", "Outer", "Outer", "*Outer", "*Outer", "Inner", 
 	"map[string]int", "map[string]string", "int", "string", "map[string]map[string]any"}
 var tgtTypeW = []string{"Outer", "Outer", "Outer", "*Outer", "*Outer", "Inner", "*Inner", "Leaf",
 	"map[string]any", "map[string]any", "any", "map[string]Inner", "map[string]Inner", "map[string]*Inner",
-	"map[string]Leaf", "map[string]int", "map[string]string", "map[string]map[string]any"}
+	"map[string]Leaf", "map[string]int", "map[string]string", "map[string]map[string]any", "map[string]Outer"}
 
 func compat(pt, st string) bool { return st == "any" || pt == st || pt == "any" }
 
@@ -591,6 +591,70 @@ func (g *gen) malformed(c *Case) string {
 		}
 	}
 	return kind
+}
+
+// nil interface values as mapped values: through a statically interface-typed source (checked at
+// request time against the target slot), through a path below an interface-typed field, or as the
+// whole interface-typed field; the target slot is any slot of T (nilable or not), in particular
+// fields of struct- and pointer-valued map entries reached through instantiated pointers.
+func (g *gen) nilCase() *Case {
+	r := g.r
+	T := []string{"Outer", "*Outer", "map[string]Outer", "map[string]Inner", "map[string]*Inner", "Inner", "map[string]any", "any"}[r.Intn(8)]
+	tpaths := enumPaths(T, g.depth, true)
+	c := &Case{T: T, Short: r.Chance(1, 2), Note: "nil-value"}
+	var used [][]string
+	n := r.Range(1, 2)
+	for i := 0; i < n && len(tpaths) > 0; i++ {
+		var tp pinfo
+		ok := false
+		for try := 0; try < 30; try++ {
+			tp = tpaths[r.Intn(len(tpaths))]
+			conflict := false
+			for _, u := range used {
+				if isPrefix(u, tp.path) || isPrefix(tp.path, u) {
+					conflict = true
+				}
+			}
+			if !conflict {
+				ok = true
+				break
+			}
+		}
+		if !ok {
+			break
+		}
+		used = append(used, tp.path)
+		var d Decl
+		other := g.value("any", 1)
+		switch r.Intn(3) {
+		case 0: // statically typed `any` source holding nil
+			m := vMap("any")
+			m.F["k"] = vNil()
+			m.F["j"] = other
+			d = Decl{S: "map[string]any", Val: m, Maps: []Mapping{{From: []string{"k"}, To: tp.path}}}
+		case 1: // below an interface-typed field
+			inner := vMap("any")
+			inner.F["a"] = vNil()
+			inner.F["b"] = other
+			o := vStruct("Outer")
+			o.F["H"] = inner
+			d = Decl{S: "Outer", Val: o, Maps: []Mapping{{From: []string{"H", "a"}, To: tp.path}}}
+		default: // the interface-typed field itself is nil
+			o := vStruct("Outer")
+			if !looseZeroExact(other, "int") && other.K == "int" {
+				o.F["N"] = other
+			}
+			d = Decl{S: "Outer", Val: o, Maps: []Mapping{{From: []string{"H"}, To: tp.path}}}
+		}
+		c.Decls = append(c.Decls, d)
+	}
+	if len(c.Decls) == 0 {
+		return nil
+	}
+	if r.Chance(1, 2) {
+		c.Decls = append(c.Decls, g.decl(T, tpaths, 1, &used))
+	}
+	return c
 }
 
 func (g *gen) base(nDecls, maxMaps int, single bool) (*Case, []pinfo) {
